@@ -23,6 +23,7 @@ ENTRY = [f"{EXP}:save_score_midi", f"{EXP}:map_to_track_channel", f"{EXP}:get_pp
 def run(ctx):
     from ..rules import extra as _X4
     _X4.rule_ppq_over_all_divisions(ctx)
+    M.rule_note_pairing(ctx)
     from ..rules import extra as _X3
     _X3.rule_single_rounding_offset(ctx)
     M.rule_velocity_taint(ctx)
